@@ -131,6 +131,9 @@ theorem onlyHandles_verify (s : State) (sg : Bool) (h : Nat) (i l : Option Nat) 
 
 theorem OnlyHandles.evolves {s s' : State} (h : OnlyHandles s s') : Evolves s s' := evolves_same h.1 h.2.1
 
+theorem ite_fst_eq {s : State} {c : Prop} [Decidable c] {a b : State × Resp} (ha : a.1 = s) (hb : b.1 = s) : (if c then a else b).1 = s := by
+  split <;> assumption
+
 theorem evolves_ite {s : State} (c : Prop) [Decidable c] (a b : State × Resp) (ha : Evolves s a.1) (hb : Evolves s b.1) :
     Evolves s (if c then a else b).1 := by split <;> assumption
 
@@ -171,6 +174,76 @@ theorem evolves_genPair (s : State) (h m : Nat) (p v : Template) (o : RV) : Evol
   unfold stepGenPair
   repeat' (first | exact Evolves.refl _ | exact evolves_genPairFinish .. | apply evolves_ite | split | extract_lets)
 
+/-! ### C_WrapKey / C_UnwrapKey / C_DeriveKey: the state is unchanged, or exactly one object is added -/
+
+/-- objects, allocation counter and slots unchanged (a handle value may have been used up), or exactly one object added -/
+def Adds (s : State) (r : State × Resp) : Prop :=
+  (r.1.objs = s.objs ∧ r.1.nextOid = s.nextOid ∧ r.1.slots = s.slots) ∨ ∃ slot h t p a, r.1 = (addObject s slot h t p a).1
+
+theorem adds_rOnly (s : State) (rv : RV) : Adds s (rOnly s rv) := Or.inl ⟨rfl, rfl, rfl⟩
+theorem adds_same (s : State) (x : Resp) : Adds s (s, x) := Or.inl ⟨rfl, rfl, rfl⟩
+theorem adds_bump (s : State) (x : Resp) : Adds s ({ s with counter := s.counter + 1 }, x) := Or.inl ⟨rfl, rfl, rfl⟩
+theorem adds_add (s : State) (slot h : Nat) (t p : Bool) (a : Attrs) (x : Resp) : Adds s ((addObject s slot h t p a).1, x) := Or.inr ⟨slot, h, t, p, a, rfl⟩
+theorem adds_ite {s : State} (c : Prop) [Decidable c] (a b : State × Resp) (ha : Adds s a) (hb : Adds s b) : Adds s (if c then a else b) := by
+  split <;> assumption
+
+macro "adds_peel" : tactic =>
+  `(tactic| repeat' (first | exact adds_rOnly _ _ | exact adds_same _ _ | exact adds_add _ _ _ _ _ _ _ | apply adds_ite | split | extract_lets))
+
+theorem wrapOutput_state (s : State) (cap : Option Nat) (rv : RV) (l : Nat) (d : Option Bytes) (c : Option (Except RV Bytes)) :
+    (wrapOutput s cap rv l d c).1 = s := by
+  unfold wrapOutput
+  repeat' (first | rfl | (apply ite_fst_eq) | split)
+
+theorem adds_wrap (s : State) (h m : Nat) (p : MParam) (wk k : Nat) (c : Option Nat) (rv : RV) (l : Nat) (d : Option Bytes) :
+    (stepWrap s h m p wk k c rv l d).1 = s := by
+  unfold stepWrap
+  repeat' (first | rfl | exact wrapOutput_state _ _ _ _ _ _ | (apply ite_fst_eq) | split | extract_lets)
+
+theorem adds_unwrapFinish (s : State) (slot h cls kt : Nat) (a b c : Bool) (t : Template) (kd : Option (Except RV Bytes)) (rv : RV) :
+    Adds s (unwrapFinish s slot h cls kt a b c t kd rv) := by
+  unfold unwrapFinish
+  generalize findClass cls kt 0 = fc
+  cases fc with
+  | none => exact adds_rOnly _ _
+  | some cd =>
+    dsimp only
+    generalize saveTemplate cd (initAttrs cd) (reorderTpl (keyTemplate cls kt a b t [])) OP.UNWRAP b c rv = r
+    cases r with
+    | error e => exact adds_rOnly _ _
+    | ok attrs =>
+      dsimp only
+      split
+      · exact adds_add _ _ _ _ _ _ _
+      · split
+        · exact adds_rOnly _ _
+        · exact adds_add _ _ _ _ _ _ _
+
+theorem adds_deriveFinish (s : State) (slot h cls kt : Nat) (a b c : Bool) (t : Template) (v : AVal) (m : Nat) (ba : Attrs) (oa : Option Attrs) : Adds s (deriveFinish s slot h cls kt a b c t v m ba oa) := by
+  unfold deriveFinish
+  generalize findClass cls kt 0 = fc
+  cases fc with
+  | none => exact adds_rOnly _ _
+  | some cd =>
+    dsimp only
+    generalize saveTemplate cd (initAttrs cd) (reorderTpl (keyTemplate cls kt a b t [CKA.CHECK_VALUE])) OP.DERIVE b c CKR.OK = r
+    cases r with
+    | error e => exact adds_rOnly _ _
+    | ok attrs => exact adds_add _ _ _ _ _ _ _
+
+theorem adds_unwrap (s : State) (h m : Nat) (p : MParam) (uk : Nat) (b : Option Bytes) (t : Template) (rv : RV) : Adds s (stepUnwrap s h m p uk b t rv) := by
+  unfold stepUnwrap
+  repeat' (first | exact adds_rOnly _ _ | exact adds_unwrapFinish _ _ _ _ _ _ _ _ _ _ _ | apply adds_ite | split | extract_lets)
+
+theorem adds_derive (s : State) (h m : Nat) (p : MParam) (bk : Nat) (t : Template) (rv : RV) : Adds s (stepDerive s h m p bk t rv) := by
+  unfold stepDerive
+  repeat' (first | exact adds_rOnly _ _ | exact adds_bump _ _ | exact adds_deriveFinish _ _ _ _ _ _ _ _ _ _ _ _ _ | apply adds_ite | split | extract_lets)
+
+theorem Adds.evolves {s : State} {r : State × Resp} (h : Adds s r) : Evolves s r.1 := by
+  rcases h with h | ⟨slot, hh, t, p, a, h⟩
+  · exact evolves_same h.1 h.2.1
+  · rw [h]; exact evolves_addObject _ _ _ _ _ _
+
 theorem evolves_stepOp (s : State) (c : OpCall) : Evolves s (stepOp s c).1 := by
   cases c <;> simp only [stepOp]
   case cfgMechs => exact evolves_same rfl rfl
@@ -191,6 +264,9 @@ theorem evolves_stepOp (s : State) (c : OpCall) : Evolves s (stepOp s c).1 := by
   case verifyFinal => exact (onlyHandles_verify ..).evolves
   case genKey => exact evolves_genKey ..
   case genPair => exact evolves_genPair ..
+  case wrap => rw [adds_wrap]; exact Evolves.refl _
+  case unwrap => exact (adds_unwrap ..).evolves
+  case derive => exact (adds_derive ..).evolves
 
 theorem evolves_restart (s : State) : Evolves s (stepRestart s).1 := by
   unfold stepRestart stepFinalize
